@@ -171,3 +171,28 @@ def write_cfg(text, consts=None, dirpath=None):
 
 def tla_set(items):
     return "{" + ", ".join('"%s"' % x for x in items) + "}"
+
+
+def run_apalache(module, inv, *, init="Init", nxt="Next", length=1, timeout=900, cwd=None):
+    """Symbolic (SMT) check of a state invariant with Apalache: spec/<module>.tla, all executions up to `length` steps
+    from `init`.  Returns {"outcome": "NoError" | "Error", "wall_s", "cmd"}; anything else raises TLCError."""
+    cwd = cwd or SPEC_DIR
+    out = tempfile.mkdtemp(prefix="apa-")
+    cmd = ["apalache-mc", "check", f"--init={init}", f"--next={nxt}", f"--inv={inv}", f"--length={length}",
+           f"--out-dir={out}", f"--run-dir={out}/run", module + ".tla"]
+    t0 = time.time()
+    try:
+        p = subprocess.run(cmd, cwd=cwd, stdout=subprocess.PIPE, stderr=subprocess.STDOUT, timeout=timeout, text=True,
+                           errors="replace", env=dict(os.environ, JVM_ARGS="-Xmx4g -Djava.io.tmpdir=" + out))
+    except subprocess.TimeoutExpired as ex:
+        raise TLCError(f"Apalache timed out after {timeout}s: {' '.join(cmd)}") from ex
+    finally:
+        shutil.rmtree(out, ignore_errors=True)
+    if "The outcome is: NoError" in p.stdout and p.returncode == 0:
+        outcome = "NoError"
+    elif "The outcome is: Error" in p.stdout and p.returncode == 12:
+        outcome = "Error"
+    else:
+        raise TLCError("Apalache did not decide (rc=%d): %s" % (p.returncode, " ".join(p.stdout.split())[-600:]))
+    return {"engine": "apalache-mc 0.58", "module": module, "invariant": inv, "length": length, "outcome": outcome,
+            "wall_s": round(time.time() - t0, 1), "cmd": " ".join(cmd)}
